@@ -16,7 +16,7 @@ import (
 var Shapes = []string{
 	"text", "textcrlf", "html", "cyrillic", "cjk", "utf8big", "dna", "numeric", "base64",
 	"elfx86", "pe", "elfarm64", "elfbogus", "pebogus", "machobogus", "wav", "bmp", "ppm", "runs", "zeros",
-	"skewed", "raredom", "ramp255", "ramp256", "smallalpha", "periodic", "random", "magicmix", "repeatblocks", "sorted", "utf8dirty", "longruns", "farmatch", "crlfcut", "constchunks", "randtext", "bigvocab", "fsdstress", "ffmix", "wordlist", "wordlist3", "staircase", "staircase2",
+	"skewed", "raredom", "ramp255", "ramp256", "smallalpha", "periodic", "random", "magicmix", "repeatblocks", "sorted", "utf8dirty", "longruns", "farmatch", "crlfcut", "constchunks", "randtext", "bigvocab", "fsdstress", "ffmix", "wordlist", "wordlist3", "staircase", "staircase2", "clusterq",
 }
 
 var words = strings.Fields(`the of and to a in is that it was for on are as with his they at be this from have or by one had not but what all were
@@ -306,6 +306,20 @@ func Make(shape string, n int, seed int64) []byte {
 			}
 		}
 		b = b[:n]
+	case "clusterq":
+		// per 16 KiB chunk: three quarters made of 2-3 byte values (1-2 bit codes), one quarter (which one varies from chunk to
+		// chunk) drawing uniformly from 200+ other values (long codes): the coded size of the quarters differs by a factor of 5+
+		nv := 200 + r.Intn(54)
+		dom := 2 + r.Intn(2)
+		for i := 0; i < n; i++ {
+			chunk := i / 16384
+			q := (i % 16384) / 4096
+			if q == (chunk+int(seed))%4 {
+				b = append(b, byte(dom+r.Intn(nv)))
+			} else {
+				b = append(b, byte(r.Intn(dom)))
+			}
+		}
 	case "staircase", "staircase2":
 		// a histogram that defeats length-limited prefix codes: a few symbols of tiny equal counts, then counts growing like a
 		// Fibonacci sequence up to exactly n in total (optimal code lengths far above 12 bits with only ~2000 samples)
